@@ -25,6 +25,7 @@ var c19Docs = []c19Doc{
 	{`{"a":{"now":"object"},"b":{"c":["deep"]}}`, map[string]interface{}{"a": map[string]interface{}{"now": "object"}, "b": map[string]interface{}{"c": []interface{}{"deep"}}}},
 	{`{"a/b":"slash","m~n":"tilde"}`, map[string]interface{}{"a/b": "slash", "m~n": "tilde"}},
 	{`{"a/b":"slash2","m~n":{"x/y":"deep"}}`, map[string]interface{}{"a/b": "slash2", "m~n": map[string]interface{}{"x/y": "deep"}}},
+	{`{"a~1b":"tilde-one","a/b":"slash","c~0d":{"e~01f":"deep"}}`, map[string]interface{}{"a~1b": "tilde-one", "a/b": "slash", "c~0d": map[string]interface{}{"e~01f": "deep"}}},
 }
 
 func c19Range() int {
@@ -41,7 +42,7 @@ func VF_C19_Patch() {
 	vf.Assume(a.doc.GetCUID() != b.doc.GetCUID())
 	src := vf.Choice("source", c19Range())
 	tgt := vf.Choice("target", c19Range())
-	vf.Tag("_pair", string(rune('0'+src))+">"+string(rune('0'+tgt)))
+	vf.Tag("_pair", string(rune('a'+src))+">"+string(rune('a'+tgt)))
 	esc := src >= 8 || tgt >= 8
 	vf.Tag("escaped-keys", esc)
 	// build the source through the same API (a patch from the empty document)
